@@ -1142,12 +1142,9 @@ class TaskPool:
 
         for itask in tasks:
             if itask.tdef.name in orphans:
-                if (
-                    itask.state(TASK_STATUS_WAITING)
-                    or itask.state.is_held
-                    or itask.state.is_queued
-                ):
-                    # Remove orphaned task if it hasn't started running yet.
+                if itask.state(TASK_STATUS_WAITING):
+                    # Remove orphaned task if it hasn't started running yet
+                    # (NOTE: a held task may well be submitted or running).
                     self.remove(itask, 'task definition removed')
                 else:
                     # Keep active orphaned task, but stop it from spawning.
